@@ -71,6 +71,32 @@ def apply(c, good):
             return None
         data[o:o + f["w"]] = v.to_bytes(f["w"], "little")
         return bytes(data)
+    if k == "word":
+        o = 4 * c["idx"]
+        if o + 4 > len(data):
+            return None
+        big = c["fmt"] == "amiga" or data[:4] in (b"\xfe\xed\xfa\xce", b"\xfe\xed\xfa\xcf")
+        data[o:o + 4] = (c["v"] & 0xffffffff).to_bytes(4, "big" if big else "little")
+        return bytes(data)
+    if k == "hunks":
+        L = lambda v: (v & 0xffffffff).to_bytes(4, "big")
+        out = L(0x3f3) + L(0) + L(2) + L(0) + L(1) + L(2) + L(2) + L(0x3e9) + L(2) + L(0x4e714e71) + L(0x4e754e71)
+        keep = len(out)
+        h = c["h"]
+        body = b"".join(L(0x11110000 + i) for i in range(h["m"]))
+        t = h["t"]
+        if t in ("code", "data", "debug", "name", "unit", "bad"):
+            out += L({"code": 0x3e9, "data": 0x3ea, "debug": 0x3f1, "name": 0x3e8, "unit": 0x3e7, "bad": 0x12345678}[t]) + L(h["n"]) + body
+        elif t == "bss":
+            out += L(0x3eb) + L(h["n"]) + body
+        elif t == "reloc32":
+            out += L(0x3ec) + L(h["n"]) + L(0) + b"".join(L(4 * i) for i in range(h["m"])) + (L(0) if h["term"] else b"")
+        elif t == "symbol":
+            out += L(0x3f0) + L(h["n"]) + body + L(0x100) + (L(0) if h["term"] else b"")
+        out += {"none": b"", "end": L(0x3f2), "code": L(0x3e9) + L(1) + L(0x4e714e75) + L(0x3f2)}[c["tail"]]
+        if c["cut"] >= 0:
+            out = out[:keep + 4 * c["cut"]]
+        return out
     if k == "truncate":
         return bytes(data[:c["n"]])
     if k == "flip":
@@ -156,6 +182,10 @@ def run(tier, seed):
     ends = sorted(C.parse_payload(s.lines, "ENDS "), key=lambda x: json.dumps(x, sort_keys=True))
     if len(ends) < 1500:
         raise C.InfraError("only %d sessions with endings" % len(ends))
+    if tier == "quick":
+        # quick: the grammar-built amiga files and the word cases are sampled
+        heavy = [x for x in fcases if x["k"] in ("word", "hunks")]
+        fcases = [x for x in fcases if x["k"] not in ("word", "hunks")] + rnd.sample(heavy, 700)
     if len(fcases) < 1500 or len(sessions) < 300:
         raise C.InfraError("generators produced %d / %d cases" % (len(fcases), len(sessions)))
     if tier == "thorough":
@@ -178,7 +208,11 @@ def run(tier, seed):
         mode = ["-disasm"] if i % 3 else []
         script = "" if mode else "print 0xf800-0xf810\ndisasm 0xf800-0xf820\nsymbols\ninfo\nquit\n"
         targs = {"bin": ["-bin"], "ti_txt": []}.get(c["fmt"], [])
-        if c["k"] == "field":
+        if c["k"] == "word":
+            key = "file:%s:word%d" % (c["fmt"], c["idx"])
+        elif c["k"] == "hunks":
+            key = "file:amiga:hunk:%s%s" % (c["h"]["t"], ":cut" if c["cut"] >= 0 else "")
+        elif c["k"] == "field":
             key = "file:%s:%s.%s" % (c["fmt"], c["part"], c["f"]["name"])
         else:
             key = "file:%s:%s%s" % (c["fmt"], c["k"], ":" + c["m"] if c["k"] == "text" else "")
@@ -242,7 +276,9 @@ def run(tier, seed):
         evaluations=len(jobs),
         distinct_nontrivial=len({m[1] for m in meta.values()}),
         rule="FileModel: 13 ELF header fields, 9 section-header fields x 6 sections, 5 symbol fields x 5 symbols, 9 UF2 block fields x 3, "
-             "WDC fields, each at 7-15 boundary values; truncation at 24 lengths x 9 formats; 12 text-format mutations x 3 formats; 40 "
+             "WDC fields, each at 7-15 boundary values; every 32-bit word of the Mach-O header/load commands (48) and of the Amiga hunk header (16) "
+             "at 15 boundary values; Amiga files built from the hunk grammar (9 hunk types x 6 length values x 3 present lengths x terminator x 3 tails, "
+             "cut after every long); truncation at 24 lengths x 9 formats; 12 text-format mutations x 3 formats; 40 "
              "byte flips x 4 formats; UtilSession: every command x argument class (quick: 1 command; thorough: + 20,000 pairs), each one-command session also ended by "
              "exit and by end of input, 15 interactive asm bodies x 7 arguments x closed/unclosed x 3 endings; all cases "
              "non-trivial; distinct by case description",
